@@ -37,6 +37,7 @@ typedef struct Plane3_float PL;
 typedef struct Line3_float LN;
 #define IN_V3(v, in) IN_EL_ARR (in, 3); V3 v; v.x = in[0]; v.y = in[1]; v.z = in[2]; SANE (v.x); SANE (v.y); SANE (v.z)
 #define DOT(a, b) ((a).x * (b).x + (a).y * (b).y + (a).z * (b).z)
+#define VEQX(a, b) ((a).x == (b).x && (a).y == (b).y && (a).z == (b).z)
 #define VREQ(a, ex, ey, ez) (REQ ((a).x, ex) && REQ ((a).y, ey) && REQ ((a).z, ez))
 #define CROSSX(a, b) ((a).y * (b).z - (a).z * (b).y)
 #define CROSSY(a, b) ((a).z * (b).x - (a).x * (b).z)
@@ -143,6 +144,32 @@ void h_line_closestPoint (void)
     V3 w = vsub (c, lp), e = vsub (c, p), pp = vsub (p, lp);
     VF_ASSERT (PARALLEL (w, ld), "closestPointTo(point) lies on the line");
     VF_ASSERT (REQ (DOT (e, ld), DOT (pp, ld) * (N - 1)), "(closest - point).dir == ((point - pos).dir) (N - 1): perpendicular at unit direction");
+    VF_END ();
+}
+/* Line3::distanceTo(point) and closestVertex (ImathLineAlgo.h) */
+void h_line_distanceTo (void)
+{
+    IN_V3 (lp, in_lp); IN_V3 (ld, in_ld); IN_V3 (p, in_p);
+    LN ln = { { 0, 0, 0 }, { 0, 0, 0 } }; ln.pos = lp; ln.dir = ld;
+    V3 c = F_line_closestPointTo (&ln, &p);
+    V3 e = vsub (c, p);
+    EL d = F_line_distanceTo (&ln, &p);
+    VF_ASSERT (REQ (d, F_length (&e)), "distanceTo(point) == length of closestPointTo(point) - point");
+    VF_END ();
+}
+#define DIST2(v) (DOT (v, v))
+void h_closestVertex (void)
+{
+    IN_V3 (lp, in_lp); IN_V3 (ld, in_ld); IN_V3 (v0, in_v0); IN_V3 (v1, in_v1); IN_V3 (v2, in_v2);
+    LN ln = { { 0, 0, 0 }, { 0, 0, 0 } }; ln.pos = lp; ln.dir = ld;
+    V3 c0 = F_line_closestPointTo (&ln, &v0), c1 = F_line_closestPointTo (&ln, &v1), c2 = F_line_closestPointTo (&ln, &v2);
+    V3 e0 = vsub (v0, c0), e1 = vsub (v1, c1), e2 = vsub (v2, c2);
+    EL d0 = DIST2 (e0), d1 = DIST2 (e1), d2 = DIST2 (e2);
+    V3 r = F_closestVertex (&v0, &v1, &v2, &ln);
+    /* first index of a minimal squared distance (the comparisons are the code's own strict <) */
+    int k = (d0 <= d1 && d0 <= d2) ? 0 : (d1 <= d2) ? 1 : 2;
+    V3 want = k == 0 ? v0 : k == 1 ? v1 : v2;
+    VF_ASSERT (VEQX (r, want), "closestVertex returns the first vertex of minimal squared distance to the line");
     VF_END ();
 }
 /* project / orthogonal / reflect (ImathVecAlgo.h) */
